@@ -1268,3 +1268,43 @@ silent('C19', 'combiner-iterates-a-dict-of-tokens-in-insertion-order',
                                                       '                token_edge = {tok: idx for tok, idx in zip(reservation_tokens, reservation_indx)}\n'
                                                       '                for _tok in token_edge:\n                    _last = token_edge[_tok]\n'
                                                       '                triggered_events = self.env.any_of(reservation_tokens)\n', 1)})
+
+
+# ============================================================================================ round-8 rules: behaviour-preserving twins
+# C07.R7: statistics refreshed in a `finally` WITHOUT a return, and a handler that re-raises, let the error through
+silent('C07', 'buffer-put-refreshes-statistics-in-finally-without-return',
+       lambda p: {E_BUF: p.modules[E_BUF].src.replace('       proceed=self.inbuiltstore.put(event, (item,delay))\n       self._buffer_stats_collector()\n       return proceed',
+                                                      '       try:\n           proceed=self.inbuiltstore.put(event, (item,delay))\n       finally:\n           self._buffer_stats_collector()\n       return proceed', 1)})
+silent('C20', 'buffer-put-refreshes-statistics-in-finally-without-return',
+       lambda p: {E_BUF: p.modules[E_BUF].src.replace('       proceed=self.inbuiltstore.put(event, (item,delay))\n       self._buffer_stats_collector()\n       return proceed',
+                                                      '       try:\n           proceed=self.inbuiltstore.put(event, (item,delay))\n       finally:\n           self._buffer_stats_collector()\n       return proceed', 1)})
+fire('C07', 'fleet-get-swallows-the-protocol-error', 'C07.R7', 'swallows(handler)',
+     lambda p: {E_FLT: p.modules[E_FLT].src.replace('        item = self.inbuiltstore.get(event)\n', '        try:\n            item = self.inbuiltstore.get(event)\n        except RuntimeError:\n            return None\n', 1)})
+# C07.R8: success reported through a local flag that is True on every completing path
+silent('C07', 'slotted-cancel-single-exit-with-flag-set-in-both-branches',
+       lambda p: {S_SLOT: p.modules[S_SLOT].src.replace('            self.reserve_get_queue.remove(get_event_to_cancel)\n            self._trigger_reserve_get(None)\n            return True',
+                                                       '            self.reserve_get_queue.remove(get_event_to_cancel)\n            self._trigger_reserve_get(None)\n            done = True\n            return done', 1)})
+# C02.R8 / C05.R6: ordering and repr methods do not change what == means
+silent('C02', 'flow-items-gain-lt-and-repr-only',
+       lambda p: {'helper/baseflowitem.py': p.modules['helper/baseflowitem.py'].src.replace('    def __repr__(self):', '    def __lt__(self, other):\n        return self.id < other.id\n\n    def __repr__(self):', 1)})
+silent('C05', 'priority-requests-gain-lt-only',
+       lambda p: {'base/priority_req_store.py': p.modules['base/priority_req_store.py'].src.replace('class PriorityGet(Get):\n', 'class PriorityGet(Get):\n     def __lt__(self, other):\n        return self.key < other.key\n', 1)})
+fire('C02', 'pallet-becomes-a-dataclass', 'C02.R8', 'value-equality',
+     lambda p: {'helper/pallet.py': 'from dataclasses import dataclass\n' + p.modules['helper/pallet.py'].src.replace('class Pallet(BaseFlowItem):', '@dataclass\nclass Pallet(BaseFlowItem):', 1)})
+# C13.R9: state changes stay inside behaviour when they move into a nested block of it
+fire('C13', 'conveyor-get-releases-the-belt-itself', 'C13.R9', 'state-change',
+     lambda p: M.insert_before(p, E_CC, 'ConveyorBelt.get', lambda n: isinstance(n, ast.Return), 'self.set_conveyor_state("MOVING_STATE")', which=-1) if False else
+     {E_CC: p.modules[E_CC].src.replace('    def reserve_get(self):\n       return self.belt.reserve_get()', '    def reserve_get(self):\n       self.set_conveyor_state("MOVING_STATE")\n       return self.belt.reserve_get()', 1)})
+# C18.R10: the same unconditional stamp through a local
+silent('C18', 'item-entry-stamp-through-a-local',
+       lambda p: {'helper/baseflowitem.py': p.modules['helper/baseflowitem.py'].src.replace('            self.timestamp_node_entry = env.now', '            t_now = env.now\n            self.timestamp_node_entry = t_now', 1)})
+# C12.R5: length through the constructor chain, done completely
+silent('C12', 'item-length-through-complete-constructor-chain',
+       lambda p: {'helper/baseflowitem.py': p.modules['helper/baseflowitem.py'].src.replace('    def __init__(self, id):\n        self.id = id', '    def __init__(self, id, length=1):\n        self.id = id\n        self.length = length', 1),
+                  'helper/item.py': p.modules['helper/item.py'].src.replace('    def __init__(self, id):\n        super().__init__(id)', '    def __init__(self, id, length=1):\n        super().__init__(id, length)', 1),
+                  'helper/pallet.py': p.modules['helper/pallet.py'].src.replace('    def __init__(self, id):\n        super().__init__(id)', '    def __init__(self, id, length=1):\n        super().__init__(id, length)', 1),
+                  N_SRC: p.modules[N_SRC].src.replace("""                    item = Item(f'item_{self.id+"_"+str(i)}')\n                    item.length = self.item_length""", """                    item = Item(f'item_{self.id+"_"+str(i)}', self.item_length)""", 1)
+                                         .replace("""                    item = Pallet(f'pallet_{self.id+"_"+str(i)}')\n                    item.length = self.item_length""", """                    item = Pallet(f'pallet_{self.id+"_"+str(i)}', self.item_length)""", 1)})
+# C01.O6: the same validation after a harmless normalisation of an int-valued float is still a rejection of 2.5
+silent('C01', 'edge-capacity-validated-through-a-local',
+       lambda p: {'edges/edge.py': p.modules['edges/edge.py'].src.replace('        if not isinstance(self.capacity, int) or self.capacity <= 0:', '        cap = self.capacity\n        if not isinstance(cap, int) or cap <= 0:', 1)})
